@@ -74,6 +74,8 @@ static void gen_crystal(xv_rng *r, m_crystal *c, const char *forced_name) {
     /* well-conditioned cells only: the volume formula cancels when 1-cos2a-cos2b-cos2g+2cacbcg is small */
     if (isfinite(v) && v > 0.3 * c->cell[0] * c->cell[1] * c->cell[2]) break;
   }
+  /* now and then angles that cannot close a parallelepiped (the library takes such a cell; its volume is then NaN) */
+  if (xv_below(r, 40) == 0) { static const double bad[4][3] = { {60, 60, 125}, {130, 125, 120}, {55, 60, 120}, {100, 140, 130} }; int j = (int)xv_below(r, 4); c->cell[3] = bad[j][0]; c->cell[4] = bad[j][1]; c->cell[5] = bad[j][2]; }
   c->n_atom = xv_below(r, 16) ? 1 + xv_below(r, 12) : 0;     /* now and then a crystal without atoms (legal through Crystal_AddCrystal) */
   for (k = 0; k < c->n_atom; k++) { c->atom[k].Zatom = 1 + xv_below(r, 92); c->atom[k].fraction = xv_below(r, 3) ? 1.0 : (1 + xv_below(r, 1024)) / 1024.0;
     c->atom[k].x = xv_below(r, 4096) / 4096.0; c->atom[k].y = xv_below(r, 4096) / 4096.0; c->atom[k].z = xv_below(r, 4096) / 4096.0; }
@@ -97,6 +99,7 @@ static int same_crystal(const Crystal_Struct *s, const m_crystal *c, int check_v
   if (s->n_atom != c->n_atom) { snprintf(why, nwhy, "n_atom %d != %d", s->n_atom, c->n_atom); return 0; }
   for (k = 0; k < c->n_atom; k++) if (s->atom[k].Zatom != c->atom[k].Zatom || s->atom[k].fraction != c->atom[k].fraction || s->atom[k].x != c->atom[k].x || s->atom[k].y != c->atom[k].y || s->atom[k].z != c->atom[k].z) { snprintf(why, nwhy, "atom %d differs", k); return 0; }
   /* forward error bound of V = abc*sqrt(D): dV = (abc)^2 dD / (2V), dD of order 10 ulp */
+  if (check_volume && isnan(v)) { if (!isnan(s->volume)) { snprintf(why, nwhy, "volume %.17g for a cell whose angles cannot close (recomputed NaN)", s->volume); return 0; } return 1; }
   if (check_volume && !(fabs(s->volume - v) <= 1e-12 * fabs(v) + 1e-14 * (c->cell[0] * c->cell[1] * c->cell[2]) * (c->cell[0] * c->cell[1] * c->cell[2]) / fabs(v))) { snprintf(why, nwhy, "volume %.17g, recomputed %.17g", s->volume, v); return 0; }
   return 1;
 }
@@ -151,7 +154,7 @@ static const char *c14_opnames[] = { "add", "add-duplicate", "add-null", "readfi
 static void count_op(int op, int outcome) { hm_opname[op] = c14_opnames[op]; hm_opcount[op][outcome]++; }
 
 static void crystal_history(long hno, int maxlen, int builtin, const char *tmpdir) {
-  xv_rng r; m_array A; int len, step; size_t b0 = hm_alloc(); xrl_error *e; char key[200], why[200], path[600];
+  xv_rng r; m_array A; int len, step, big = 0; size_t b0 = hm_alloc(); xrl_error *e; char key[200], why[200], path[600];
   r.s = hm_seed * 0x9E3779B97F4A7C15ULL + (uint64_t)hno * 0xD1B54A32D192ED03ULL + 12345;
   hm_tl = 0; hm_trace[0] = 0;
   memset(&A, 0, sizeof A); A.builtin = builtin;
@@ -170,8 +173,11 @@ static void crystal_history(long hno, int maxlen, int builtin, const char *tmpdi
   }
   len = 1 + xv_below(&r, maxlen);
   if (builtin) len = maxlen;   /* built-in runs are long so that the fixed capacity is reached */
+  /* one history in 150 fills a USER array past the size of the built-in table (capacities that hit exactly CRYSTALARRAY_MAX on their way) */
+  if (!builtin && hno % 150 == 7) { static const int caps[3] = { CRYSTALARRAY_MAX, 2, 12 }; Crystal_ArrayFree(A.arr); A.cap0 = caps[(hno / 150) % 3]; A.arr = Crystal_ArrayInit(A.cap0, NULL); big = 1; len = CRYSTALARRAY_MAX + 80; TR("big(%d);", A.cap0);
+    if (!A.arr) { hm_violation("c14:arrayinit-failed", "NULL"); return; } }
   for (step = 0; step < len; step++) {
-    int op = xv_below(&r, 100), rv; m_crystal c; Crystal_Struct *s;
+    int op = big ? (int)xv_below(&r, 40) : (int)xv_below(&r, 100), rv; m_crystal c; Crystal_Struct *s;
     /* one step in four passes NO error slot: the outcome and the state of the collection must be the same */
     xrl_error **ep = xv_below(&r, 4) ? &e : NULL;
     if (!ep) TR("noslot:");
@@ -191,7 +197,7 @@ static void crystal_history(long hno, int maxlen, int builtin, const char *tmpdi
       if (!rv || e) { snprintf(key, sizeof key, "c14:add-rejected:%s", A.n >= A.cap0 ? "beyond-initial-capacity" : "within-capacity"); hm_violation(key, e ? e->message : "returned 0 without error"); if (e) xrl_error_free(e); count_op(OP_ADD, 1); check_array(&A, "rejected-add"); continue; }
       if (A.n >= A.cap0) A.grew = 1;
       m_add(&A, &c); count_op(OP_ADD, 0);
-      check_array(&A, A.n > A.cap0 ? "add-beyond-capacity" : "add");
+      if (!big || step % 16 == 0 || (A.n >= CRYSTALARRAY_MAX - 2 && A.n <= CRYSTALARRAY_MAX + 3)) check_array(&A, A.n > A.cap0 ? "add-beyond-capacity" : "add");
     } else if (op < 50) {                                                   /* ---- duplicate */
       if (!A.n) continue;
       c = A.c[xv_below(&r, A.n)]; c.cell[0] += 1.0;                          /* same name, different content */
